@@ -68,7 +68,8 @@ static void setup(Runner &r, const Tier &t) {
         { gen_dir() + "/s_full_excl.ttf", { "a\xCC\x81\xCC\x80", "e", "c\xCC\x81\xCC\x80", "ae" } }     /* every mark names glyph e as its collision exclusion glyph: the collision pass consults a glyph that the text need not contain (loaded on demand on lazy faces) */,
         { gen_dir() + "/s_full_badglyph.ttf", { "e", "ae f", "de", "ea\xCC\x81" } }     /* glyph e is unreadable: demand-loading faces substitute glyph 0 for it, on EVERY lookup (preloading faces refuse the font: those roots are skipped) */ };
     if (t.thorough) fs.push_back({ font_path("Padauk.ttf"), { "\xE1\x80\x80\xE1\x80\xBB\xE1\x80\xBD\xE1\x80\x94\xE1\x80\xBA", "\xE1\x80\x99\xE1\x80\xBC\xE1\x80\x94\xE1\x80\xBA", "ab" } });
-    for (auto &f : fs) for (unsigned o : { 0u, 2u, 4u, 6u }) for (int h = 0; h < 2; ++h) g_roots.push_back({ f.f, o, h == 1, f.tx });
+    for (auto &f : fs) for (unsigned o : { 0u, 2u, 4u, 6u }) for (int h = 0; h < 2; ++h) { if ((o & 2) && f.f.find("s_full_excl") != std::string::npos) continue;      /* the on-demand glyph load is the point of this root: lazy faces only */
+        g_roots.push_back({ f.f, o, h == 1, f.tx }); }
     r.ncases = g_roots.size() * 2; r.case_alarm_s = unsigned(r.deadline_s) + 600;
     r.describe = [](uint64_t i) { const Root &rt = g_roots[i / 2]; JObj o; o.kv("font", rt.font).kv("face_options", rt.opts).kv("font_kind", rt.hinted ? "advance callback (hinted)" : "gr_make_font (unhinted)")
         .kv("search", i % 2 ? "plain depth-limited enumeration without deduplication" : "BFS to fixpoint on the mutable-state key").kv("probes", "texts x dir{0,1,3} x features{default,language,modified} x {font,NULL} + face dump"); return o; };
@@ -112,7 +113,8 @@ static std::string utf8_of(const std::vector<uint32_t> &cps) { std::vector<uint8
 static void setup_pairs(Runner &r, const Tier &t) {
     g_proots.clear(); g_pcps.clear();
     struct FS { std::string f; std::vector<uint32_t> base; int dir; };
-    std::vector<FS> fs = { { gen_dir() + "/s_full.ttf", { 0x61, 0x62, 0x301, 0x10000, 0x10400 }, 0 }, { font_path("Awami_test.ttf"), { 0x628, 0x6CC, 0x200C }, 1 }, { font_path("small.ttf"), { 0x61, 0x62 }, 0 } };
+    std::vector<FS> fs = { { gen_dir() + "/s_full.ttf", { 0x61, 0x62, 0x301, 0x10000, 0x10400 }, 0 }, { font_path("Awami_test.ttf"), { 0x628, 0x6CC, 0x200C }, 1 }, { font_path("small.ttf"), { 0x61, 0x62 }, 0 },
+        { gen_dir() + "/s_full_c12bmp.ttf", { 0x61, 0x62, 0x63, 0x20, 0x10000 }, 0 }     /* the format-12 subtable also lists BMP characters, with OTHER glyphs than format 4: format 4 rules the BMP whatever was looked up before */ };
     if (t.thorough) { fs.push_back({ font_path("Padauk.ttf"), { 0x1000, 0x103B, 0x200B }, 0 }); fs.push_back({ font_path("charis_r_gr.ttf"), { 0x61, 0x66, 0x301, 0x1D510, 0x1D513 }, 0 }); fs.push_back({ font_path("Scheherazadegr.ttf"), { 0x628, 0x633, 0x200D }, 1 }); }
     for (auto &f : fs) for (unsigned o : { 0u, 6u }) { PRoot pr{ f.f, o, f.base, f.dir };
         std::vector<uint32_t> cps = f.base; { TableSet ts; if (ts.from_file(f.f)) { MemFace mf; mf.ts = &ts; gr_face *face = mf.make(0); if (face) { const graphite2::Face *F = static_cast<const graphite2::Face*>(face);
@@ -142,7 +144,7 @@ static void extra_p(const Runner &r, JObj &o) { o.kv("states", (unsigned long lo
 static void extra(const Runner &r, JObj &o) { o.kv("states", (unsigned long long)r.counters[0]).kv("transitions", (unsigned long long)r.counters[1]).kv("validated", (unsigned long long)r.counters[0]).kv("bfs_roots_reaching_fixpoint", (unsigned long long)r.counters[2]); }
 int main(int argc, char **argv) {
     std::vector<Sub> subs;
-    { Sub s; s.name = "history_search"; s.setup = setup; s.budget_quick = 300; s.budget_thorough = 1100; s.counter_names = { "states_probed", "operations_replayed", "bfs_roots_reaching_fixpoint" }; s.extra = extra; subs.push_back(s); }
+    { Sub s; s.name = "history_search"; s.setup = setup; s.budget_quick = 480; s.budget_thorough = 1100; s.counter_names = { "states_probed", "operations_replayed", "bfs_roots_reaching_fixpoint" }; s.extra = extra; subs.push_back(s); }
     { Sub s; s.name = "text_pair_histories"; s.setup = setup_pairs; s.budget_quick = 200; s.budget_thorough = 600; s.counter_names = { "history_probe_pairs", "operations" }; s.extra = extra_p; subs.push_back(s); }
     return check_main(argc, argv, "C08", subs);
 }
